@@ -66,3 +66,10 @@ Fixpoint bytes_eqb (a b : list N) : bool :=
   end.
 Definition cidr_eqb (c d : cidr) : bool :=
   bytes_eqb (c_ip c) (c_ip d) && bytes_eqb (c_mask c) (c_mask d).
+
+(** binary.BigEndian.Uint32 with Go's bounds check: a slice shorter than 4 bytes panics ([None]) *)
+Definition be32_p (b : list N) : option N :=
+  match b with
+  | _ :: _ :: _ :: _ :: _ => Some (be32 b)
+  | _ => None
+  end.
